@@ -54,6 +54,12 @@ if [ "$ID" = C16 ]; then
     exit 2
   fi
   export VERIF_RACEBIN="$W/racepass"
+  # baselines of the free-running pass: every operation once, sequentially, GOMAXPROCS=1, own process
+  for m in mixed qr rs same qrall; do
+    GOMAXPROCS=1 "$W/racepass" -mode $m -write-baseline "$W/racebase.$m.json" > "$W/racebase.$m.log" 2>&1 &
+  done
+  wait
+  export VERIF_RACEBASE="$W"
   OVERLAY="$W/overlay_s.json"
   TAGS="verif verifsched"
 fi
